@@ -75,7 +75,8 @@ func init() {
 	noTrim := Mutant{"variable-results-not-trimmed", "executor/scanner.go", "\t\t\tbuffer = trimResultsToRange(r.pr.Range, rlen, buffer)\n\t\t\tbuffer = trimResultsToLimit(r.pr.Limit, rlen, buffer)\n", "\t\t\tbuffer = trimResultsToLimit(r.pr.Limit, rlen, buffer)\n", "R11.2"}
 	limitFirst := Mutant{"limit-before-range", "executor/scanner.go", "\t\t\tbuffer = trimResultsToRange(r.pr.Range, rlen, buffer)\n\t\t\tbuffer = trimResultsToLimit(r.pr.Limit, rlen, buffer)\n", "\t\t\tbuffer = trimResultsToLimit(r.pr.Limit, rlen, buffer)\n\t\t\tbuffer = trimResultsToRange(r.pr.Range, rlen, buffer)\n", "R12.1"}
 	add("C11", fallThrough, noTrim)
-	add("C12", limitFirst)
+	noRefusal := Mutant{"unlimited-reverse-scan-not-refused", "executor/scanner.go", "\t\tif direction == utilsio.LAST {\n\t\t\treturn nil, fmt.Errorf(\"reverse scan only supported with a limited result set\")\n\t\t}\n", "\t\tif direction == utilsio.LAST {\n\t\t\tlog.Warn(\"reverse scan without a limit\")\n\t\t}\n", "R12.2"}
+	add("C12", limitFirst, noRefusal)
 
 	namesOnly := Mutant{"append-compares-names-only", "utils/io/numpy.go", "if typeStr, ok := typeMap[colSeriesShapes[idx].Type]; !ok || typeStr != nmds.ColumnTypes[idx] {", "if false {", "R13.1"}
 	add("C13", namesOnly)
